@@ -149,3 +149,13 @@ claim("C18",
       TB + " SymRng contract as stated in the evidence; paths needing more draws than the budget are outside the bound and counted.",
       "symbolic execution (CrossHair+z3) of the simulators under a symbolic RNG stub (every draw a solver variable)",
       "DESIGN.md 3/C18")
+
+claim("C12",
+      "Bounded symbolic execution of every copy route of Tree (deepcopy, clone(0/1/2), copy constructor, copy.copy, extract_tree) and of "
+      "TreeList, CharacterMatrix and TaxonNamespace, with symbolic edge lengths, annotation values and cell values, then ONE symbolic "
+      "mutation of either side. Checked: value-level equality of copy and source (structure, labels, lengths, rooting, comments, annotation "
+      "name/value lists, encoding), an identity census (nodes, edges, annotation objects and sets, comment lists disjoint; taxa and namespace "
+      "disjoint for deep copies and exactly shared for scoped ones, leaf by leaf), attribute-bound annotations re-bound to the copy's own "
+      "objects (also when bound to another owner), and that the mutation is invisible through the other object.",
+      TB, "symbolic execution (CrossHair+z3) of copy routes with symbolic contents followed by a symbolic mutation; identity census and snapshot comparison",
+      "DESIGN.md 3/C12")
